@@ -238,6 +238,29 @@ ROUND4 = {
 }
 
 
+# workloads added after the fifth round (DESIGN.md §9.5)
+ROUND5 = {
+    "C01": " The same Perm object under a vincular/mesh pattern first; pickled/copied/subclass objects; unhashable colour labels; listings thrown into / re-entered.",
+    "C02": " Hundreds of other classes created while a class and its iterator are held; bases given lazily.",
+    "C03": " Copies and pickles of used pattern objects.",
+    "C04": " Basis/tuple arguments of the set helpers; several patterns per call through all eight images.",
+    "C05": " Bases given lazily; separately built equal patterns; a user subclass of Av.",
+    "C06": " Vincular-family objects as the smaller pattern.",
+    "C09": " Strings as character sequences incl. digits of other scripts.",
+    "C10": " Receivers of user subclasses.",
+    "C11": " Objects that served other features first; the caller's bijection compared with a snapshot.",
+    "C12": " Notation twins of dihedral members (length 10-14); objects that served as patterns first.",
+    "C13": " Lazily evaluated re-entrant bases (self-deadlock recognised by stack inspection).",
+    "C14": " Word-level pairs with any pin word; word objects built on the fly.",
+    "C15": " Histories through one store: colliding notations, a basis followed by its prefixes.",
+    "C16": " Element-wise symmetric images asked right after a basis.",
+    "C17": " 4800 small sparse sets; defaultdict input.",
+    "C18": " Vincular-family receivers.",
+    "C19": " Class enumerated before the search; replicas under eight other PYTHONHASHSEED values.",
+    "C20": " Raw data sets with permutations of length 10-13; non-pin permutations in the automaton store.",
+}
+
+
 def main():
     props = [json.loads(l) for l in open(os.path.join(HERE, "properties.jsonl"))]
     checks, na = [], []
@@ -252,7 +275,7 @@ def main():
                 "evidence_file": f"/verif/evidence/{pid}.json",
                 "replay_cmd_template": f"./check {pid} --replay {{path}}",
                 "engine": "vf",
-                "level_claimed": {"category": "exploration", "text": c["text"] + ROUND3.get(pid, "") + ROUND4.get(pid, ""), "design_ref": c["ref"]},
+                "level_claimed": {"category": "exploration", "text": c["text"] + ROUND3.get(pid, "") + ROUND4.get(pid, "") + ROUND5.get(pid, ""), "design_ref": c["ref"]},
                 "level_note": c["note"],
                 "technique": c["technique"],
             })
